@@ -1708,23 +1708,24 @@ namespace awkward {
   }
 
   const int64_t
-  Content::axis_wrap_if_negative(int64_t axis) const {
+  Content::axis_wrap_if_negative(int64_t axis, int64_t depth) const {
     if (axis >= 0) {
       return axis;
     }
     std::pair<int64_t, int64_t> minmax = minmax_depth();
     int64_t mindepth = minmax.first;
     int64_t maxdepth = minmax.second;
-    int64_t depth = purelist_depth();
-    if (mindepth == depth  &&  maxdepth == depth) {
-      int64_t posaxis = depth + axis;
+    int64_t localdepth = maxdepth;
+    if (mindepth == maxdepth) {
+      int64_t posaxis = localdepth + axis;
       if (posaxis < 0) {
         throw std::invalid_argument(
           std::string("axis == ") + std::to_string(axis)
-                      + std::string(" exceeds the depth == ") + std::to_string(depth)
+                      + std::string(" exceeds the depth == ") + std::to_string(localdepth)
                       + std::string(" of this array") + FILENAME(__LINE__));
       }
-      return posaxis;
+      // this node is 'depth' levels below the array that the axis refers to
+      return depth + posaxis;
     } else if (mindepth + axis == 0) {
       throw std::invalid_argument(
         std::string("axis == ") + std::to_string(axis)
